@@ -553,4 +553,70 @@ PROPERTIES['C01']['explanation'] = (
     'the stack, in order (left association), then the incoming one is pushed - ranks taken from the spec table; (2) unary / binary sign '
     'disambiguation (Operator.update_name) after every kind of previous token; ' + PROPERTIES['C01']['explanation'][0].lower() + PROPERTIES['C01']['explanation'][1:])
 PROPERTIES['C01']['not_proved'] = ['stacks deeper than 2 (the step only inspects the top of the stack repeatedly; no induction over the depth is stated), '
-                                   'argument counting / Separator / Array handlers, sign-run folding: bounded stage only']
+                                   'the closing-parenthesis / Function / Array handlers, sign-run folding: bounded stage only (Separator.ast - flushing and empty arguments - is proved on stacks of depth <= 2)']
+
+
+# ------------------------------------------------------------------------------------ argument separators and empty arguments
+def _n_args_of(t):
+    return t.n_args
+
+
+class _OpenParT(ObjT):
+    def __init__(self):
+        super().__init__('formulas.tokens.parenthesis:Parenthesis',
+                         {'attr': RecordT({'name': ConstT('('), 'start': ConstT('('), 'check_n': ConstT(_n_args_of)}), 'source': ConstT(''),
+                          'n_args': OneOf(ConstT(0), ConstT(1), ConstT(2))})
+
+
+def lemma_separator(self, prev, stack, builder):
+    tokens = [prev]
+    self.ast(tokens, stack, builder)
+    return tokens, stack, builder
+
+
+def _sep_contract():
+    from pyvc.contract import ListT
+    from formulas.errors import ParenthesesError
+    c = Contract(lambda: lemma_separator,
+                 dict(self=_utok('formulas.tokens.operator:Separator', name=','), prev=_PREV,
+                      stack=OneOf(ConstT([]), ListT(_OpenParT()), ListT(_OpenParT(), _StackOp), ListT(_StackOp)), builder=ConstT([])),
+                 'C01', name='Separator.ast', use=[], frame=('self', 'stack', 'builder'))
+    CONTRACTS.append(c)
+
+    def is_open(t):
+        from formulas.tokens.parenthesis import Parenthesis
+        return isinstance(t, Parenthesis) and 'start' in t.attr
+
+    def wants_empty(prev):
+        from formulas.tokens.operator import Separator
+        return isinstance(prev, Separator) or prev.attr['name'] == '('
+
+    @c.requires
+    def _(self, prev, stack, builder):
+        # parser states only: directly after '(' or ',' nothing can lie above the opening parenthesis
+        return (not wants_empty(prev)) or len(stack) <= 1
+
+    @c.ensures('operators-above-the-opening-parenthesis-are-flushed-and-an-empty-argument-keeps-its-position', 'P')
+    def _(self, prev, stack, builder, result, old):
+        from formulas.tokens.operand import Empty
+        before = old['stack']
+        if not before or not is_open(before[0]):
+            return False                                  # without an opening parenthesis the separator must be rejected (raises clause)
+        flushed = [t.attr['name'] for t in reversed(before[1:])]
+        empties = 1 if wants_empty(prev) else 0
+        names = [t.attr['name'] for t in builder]
+        return (len(stack) == 1 and is_open(stack[0]) and stack[0].n_args == before[0].n_args + empties
+                and len(builder) == empties + len(flushed) and names[empties:] == flushed
+                and (empties == 0 or isinstance(builder[0], Empty)) and len(result[0]) == 2 + empties and result[0][-1] is self)
+
+    @c.raises(ParenthesesError, 'a-separator-outside-parentheses-is-rejected', 'P')
+    def _(self, prev, stack, builder, exc, old):
+        return not any(is_open(t) for t in old['stack'])
+
+    @c.canary('canary:never-an-empty-argument')
+    def _(self, prev, stack, builder, result, old):
+        return len(builder) == len(old['stack']) - 1
+    return c
+
+
+_sep_contract()
